@@ -399,7 +399,11 @@ class Gen:
 
     def generate(self):
         r = self.r
-        cls = "SolverStrings" if self.kind == "str" else r.weighted([("Solver", 5), ("SolverComposite", 3), ("SolverCacheless", 1)])
+        if self.kind == "str":
+            # the model-caching solvers too: what they re-evaluate on a cached model goes through the concrete string backend
+            cls = r.weighted([("SolverStrings", 5), ("Solver", 3), ("SolverComposite", 1)])
+        else:
+            cls = r.weighted([("Solver", 5), ("SolverComposite", 3), ("SolverCacheless", 1)])
         self.ops.append({"op": "new", "cls": cls})
         for v in self.vars:
             if r.chance(85):
@@ -489,6 +493,10 @@ def execute(rec):
     setup_run(claripy, {"lru": cfg.get("lru", 10000), "reuse": False, "salt": cfg.get("salt", 0)})
     seam = Z3Seam()
     seam.install()
+    if cfg.get("kind") == "str":
+        # Z3's sequence solver can run for minutes: every check of a string history runs under a resource budget (a
+        # deterministic give-up; claripy reports it as an error, and a query that raises has no value to judge)
+        seam.rlimit = 4000000
     ctx = S.ref_ctx()
     trace = hashlib.sha256()
     stats = {"ops": 0, "values_checked": 0, "noverdict": 0, "unbuildable": 0, "cache_served": 0, "queries": 0}
